@@ -125,6 +125,7 @@ pub fn run(rep: &mut Report, rng: &mut Rng, thorough: bool) {
     model_stream(rep, &mut rng.fork(), thorough);
     let cases = if thorough { 3000 } else { 220 };
     let max = if thorough { 4 << 20 } else { 200 << 10 };
+    let model_max = if thorough { 400_000 } else { 50_000 };
     for i in 0..cases {
         let mut r = rng.fork();
         let kind = DATA_KINDS[(i % DATA_KINDS.len() as u64) as usize];
@@ -154,6 +155,10 @@ pub fn run(rep: &mut Report, rng: &mut Rng, thorough: bool) {
                                 rep.fail(&format!("xz-roundtrip-mismatch:{}", o.sig()), "XZ round trip returned different bytes", detail());
                             } else if used != c.len() {
                                 rep.fail("xz-roundtrip-consumed", "XZ reader did not consume the whole file it wrote", detail());
+                            } else if c.len() <= model_max && data.len() <= model_max {
+                                // the Lean reader model must agree, and the Lean writer model must
+                                // re-assemble the identical file from the decoded blocks
+                                rep.model(format!("xz.dec multi=0 in={} cap={} reenc=1", hex(c), data.len() + 16), format!("ok {} {} {} 1", data.len(), fnv(&data), c.len()));
                             }
                         }
                         other => rep.fail(
@@ -195,6 +200,8 @@ pub fn run(rep: &mut Report, rng: &mut Rng, thorough: bool) {
                             rep.fail("lzip-roundtrip-mismatch", "LZIP round trip returned different bytes", detail());
                         } else if used != c.len() {
                             rep.fail("lzip-roundtrip-consumed", "LZIP reader did not consume the whole file it wrote", detail());
+                        } else if c.len() <= model_max && data.len() <= model_max {
+                            rep.model(format!("lzip.dec in={} cap={} reenc=1", hex(&c), data.len() + 16), format!("ok {} {} {} 1", data.len(), fnv(&data), c.len()));
                         }
                         // header byte must announce a dictionary >= the one the encoder used
                         let hb = c[5];
